@@ -84,6 +84,7 @@ func handleHTTP1ClientStream(b *bufio.Reader, progress *api.ReadProgress, tcpID 
 	counterPair.Request++
 	requestCounter := counterPair.Request
 	counterPair.Unlock()
+	verifYield("http.counter")
 
 	// Check HTTP2 upgrade - HTTP2 Over Cleartext (H2C)
 	if strings.Contains(strings.ToLower(req.Header.Get("Connection")), "upgrade") && strings.ToLower(req.Header.Get("Upgrade")) == "h2c" {
@@ -127,6 +128,7 @@ func handleHTTP1ServerStream(b *bufio.Reader, progress *api.ReadProgress, tcpID 
 	counterPair.Response++
 	responseCounter := counterPair.Response
 	counterPair.Unlock()
+	verifYield("http.counter")
 
 	// Check HTTP2 upgrade - HTTP2 Over Cleartext (H2C)
 	if res.StatusCode == 101 && strings.Contains(strings.ToLower(res.Header.Get("Connection")), "upgrade") && strings.ToLower(res.Header.Get("Upgrade")) == "h2c" {
